@@ -84,6 +84,21 @@ def dscale(d, x):  # noqa: ANN001, ANN201
     return float(d.iloc[0]) * x
 
 
+def cache_work(arg):  # noqa: ANN001, ANN201
+    """Workload for the result cache: logs its invocation (append-only side channel outside
+    the cache directory) and returns a deterministic payload of the requested size."""
+    import os
+
+    logpath, tag, size = arg
+    fd = os.open(logpath, os.O_WRONLY | os.O_CREAT | os.O_APPEND, 0o644)
+    try:
+        os.write(fd, (repr(tag) + "\n").encode())
+    finally:
+        os.close(fd)
+    blob = (repr(tag).encode() * (size // max(1, len(repr(tag))) + 1))[:size]
+    return {"tag": tag, "blob": blob, "n": size}
+
+
 FN = {
     f.__name__: f
     for f in [
